@@ -754,6 +754,10 @@ class OpsMixin:
             if isinstance(k, slice) and k.step is None and k.stop is None and isinstance(k.start, int) and k.start >= 0:
                 s = k.start
                 return Stacked(o.n - s, lambda i: o.at(i + s), tag="slice")
+            if isinstance(k, slice) and k.step is None and k.start in (None, 0) and isinstance(k.stop, int) and k.stop < 0:
+                # v[:-m]: all but the last m elements (A4: a slice is the sub-sequence; lengths of at least m are the caller's
+                # precondition, as for JAX)
+                return Stacked(o.n + k.stop, lambda i: o.at(i), tag="slice")
             raise Unsupported(f"index {k!r} into Stacked")
         if type(o).__name__ == "AtRef":
             from .interp_call import AtIdx
